@@ -13,4 +13,9 @@ SITES = [
     P("murphy_score", "continuous/murphy_impl.py"), P("firm", "categorical/multicategorical_impl.py"),
     P("probability_of_detection", "categorical/binary_impl.py"), P("probability_of_false_detection", "categorical/binary_impl.py"),
     P("crps_cdf", "probability/crps_impl.py"),
+    P("crps_cdf_brier_decomposition", "probability/crps_impl.py"),
+    P("risk_matrix_score", "emerging/risk_matrix.py"),
+    P("BinaryContingencyManager._get_counts", "categorical/contingency_impl.py", "contingency_counts"),
+    P("pearsonr", "continuous/correlation/correlation_impl.py"),
+    P("kge", "continuous/standard_impl.py"),
 ]
